@@ -117,6 +117,13 @@ def call_kwargs(args, names=None):
     for k in ("to", "boundary", "fill_value"):
         if k in args and args[k]["k"] != "none":
             kw[k] = to_py(args[k], nm)
+    if args.get("npnum") and "fill_value" in kw:
+        # the same numbers spelt as numpy scalars (what a value taken out of an array is)
+        import numpy as np
+
+        conv = {"f64": np.float64, "f32": np.float32, "i64": np.int64, "float": float}[args["npnum"]]
+        fv = kw["fill_value"]
+        kw["fill_value"] = {a: conv(v) for a, v in fv.items()} if isinstance(fv, dict) else conv(fv)
     return kw
 
 
